@@ -41,13 +41,15 @@ HUNT = {
  "C01": "Hunt round: vec_push must not be a bare append on the argument slice (known finding).",
  "C02": "Hunt round: helper-type collector starts from the emitted definitions; the import pruner searches type aliases; no type switch on a "
         "variable an enclosing switch rebound at a struct type; result-less extern calls are never used as Go values.",
- "C03": "Hunt round: annotations on lets and closure parameters are validated; every declared type parameter occurs in the signature.",
+ "C03": "Hunt rounds: annotations on lets and closure parameters and the types of trait signatures are validated; every declared type "
+        "parameter (function, method, impl) occurs in the signature; a Core let is typed by its body; no field name is special-cased; "
+        "the receiver of Tr::m(recv, ..) is inferred once.",
  "C04": "Hunt round: the lookup layer calls partial helpers only through a ledger; no arm of compile_expr is an unconditional panic; parse "
         "errors of non-entry files are located in their file; the instance work list is bounded (known finding).",
  "C05": "Hunt round: parameter slots keep the ids minted for them; local binders are consulted before constructors.",
  "C06": "Hunt round: case bodies of a rebinding type switch resolve nested switches on the rebound name.",
  "C07": "Hunt round: a generic function used as a value is specialised; undetermined type parameters are rejected; specialisation is bounded "
-        "(known finding: polymorphic recursion).",
+        "(known finding: polymorphic recursion); retained definitions and trait signatures are specialised; impl-level parameters are checked.",
  "C08": "Hunt round: callee signatures are final before callers are lifted; closure arguments are matched against function-typed parameters "
         "(both known findings).",
  "C10": "Hunt round: one literal operand / a literal under a unary operator is not a Go constant expression (known findings).",
@@ -56,7 +58,8 @@ HUNT = {
  "C14": "Hunt round: one package order and one file order for both pipelines; no import skipped; the same entry-point check; check and build "
         "are compared by what they do, not by frozen text.",
  "C15": "Hunt round: trait bounds belong to the hashed scheme (known finding, shared with C03).",
- "C16": "Hunt round: one definition per function / inherent method name; the separate pipeline skips no import; an extern type keeps its Go name.",
+ "C16": "Hunt rounds: one definition per function / inherent method / type / trait name (extern declarations included); the separate "
+        "pipeline skips no import; an extern type keeps its Go name; the package-mismatch test has no exemptions.",
  "C17": "Hunt round: an expression coerced to dyn is recorded at its own type; one definition per method name; the dyn wrapper's impl name and "
         "overlapping exact/generic impls (known findings).",
  "C18": "Hunt round: every scalar leaf is rendered by a builtin that exists.",
